@@ -272,7 +272,6 @@ Definition opt_text_eqb (x y : option text) : bool :=
   match x, y with Some a, Some b => text_eqb a b | None, None => true | _, _ => false end.
 Definition dir_radix (colon at_ : bool) (ps : list param) (c : ctl) : pres :=
   let go_words (c : ctl) : pres :=
-    (* the Go code: the prefix parameters are never looked at *)
     if (nargs c <=? c_apos c)%Z then err c
     else match arg_at c with
          | Some (VInt z) =>
@@ -289,23 +288,12 @@ Definition dir_radix (colon at_ : bool) (ps : list param) (c : ctl) : pres :=
   match ps with
   | [] => go_words c
   | _ =>
-      (* site: with prefix parameters the definition is ~radix,mincol,padchar,commachar,comma-intervalR *)
-      if b then (match go_words c with
-                 | Ok (c', a) => Ok (add_taint c' true, a)
-                 | Err _ => Err true
-                 | r => r
-                 end)
-      else match get_int 0 ps 10 true with
-           | GOk r => if ((2 <=? r) && (r <=? 36))%Z
-                      then (match dir_int (Z.to_N r) 1 colon at_ ps c with
-                            | Ok (c', a) => Ok (add_taint c' true, a)
-                            | Err _ => Err true
-                            | r => r
-                            end)
-                      else terr c
-           | GErr => terr c
-           | GUnsup => Unsup
-           end
+      (* with prefix parameters: ~radix,mincol,padchar,commachar,comma-intervalR is dirInt in that radix over params[1:] *)
+      match get_int 0 ps 10 true with
+      | GOk r => if ((2 <=? r) && (r <=? 36))%Z then dir_int (Z.to_N r) 1 colon at_ ps c else err c
+      | GErr => err c
+      | GUnsup => Unsup
+      end
   end.
 (* ~T (dirT); site: the number of spaces *)
 Definition dir_tab (colon at_ : bool) (ps : list param) (c : ctl) : pres :=
